@@ -3,6 +3,7 @@ package cli
 import (
 	"fmt"
 	"os"
+	"os/exec"
 	"path/filepath"
 	"sort"
 	"strings"
@@ -34,6 +35,10 @@ type KStep struct {
 	Kill    string   `json:"kill,omitempty"` // kill -9 spok from inside this task
 	Cut     int      `json:"cut,omitempty"`  // truncate: keep Cut per mille of the cache file (0 = empty, 1000 = len-1)
 	CutAbs  int      `json:"cut_abs"`        // truncate: absolute byte count when >= 0 (exhaustive mode)
+	// Sys/When: kill -9 spok on entering the When-th system call named Sys (strace fault injection):
+	// crash points between any two file-system operations, e.g. after a task finished and before its digest is on disk
+	Sys  string `json:"sys,omitempty"`
+	When int    `json:"when,omitempty"`
 }
 
 // KillCase is a C10 case.
@@ -186,6 +191,22 @@ func (c KillCase) closure(req []string) map[string]bool {
 	return out
 }
 
+// stracePath is the strace binary used for system-call level crash points ("" when absent).
+var stracePath = func() string {
+	p, err := exec.LookPath("strace")
+	if err != nil {
+		return ""
+	}
+	return p
+}()
+
+// lastRunKilled reports whether the most recent run step of execKill died by SIGKILL
+// (used by the enumeration to find the end of the system-call sequence).
+var lastRunKilled bool
+
+// killedAtStep: whether the last step that ran under strace fault injection was killed.
+var killedAtStep bool
+
 func execKill(s *ev.Shard, b *sandbox.Box, c KillCase) *rp.Fail {
 	if err := b.Reset(); err != nil {
 		return &rp.Fail{Sig: "harness", Msg: err.Error()}
@@ -315,9 +336,19 @@ func execKill(s *ev.Shard, b *sandbox.Box, c KillCase) *rp.Fail {
 				args = append(args, "--force")
 			}
 			args = append(args, st.Tasks...)
-			res := b.Run(b.Proj, env, runTimeout, args...)
+			var res sandbox.Result
+			if st.Sys != "" && stracePath != "" {
+				wrapper := []string{stracePath, "-f", "-qq", "-o", "/dev/null", "-e", "trace=" + st.Sys, "-e", fmt.Sprintf("inject=%s:signal=SIGKILL:when=%d", st.Sys, st.When)}
+				res = b.RunWrapped(wrapper, b.Proj, env, runTimeout, args...)
+			} else {
+				res = b.Run(b.Proj, env, runTimeout, args...)
+			}
 			if res.TimedOut {
 				return &rp.Fail{Sig: "harness", Msg: "spok timed out"}
+			}
+			lastRunKilled = res.Signal == "killed"
+			if st.Sys != "" {
+				killedAtStep = lastRunKilled
 			}
 			log := readLog(logPath)
 			stderr := sandbox.Strip(res.Stderr)
@@ -389,7 +420,11 @@ func execKill(s *ev.Shard, b *sandbox.Box, c KillCase) *rp.Fail {
 			if killed {
 				faultSeen = true
 				if s != nil {
-					s.Class("fault_killed_in_task")
+					if st.Sys != "" {
+						s.Class("fault_killed_at_syscall_" + st.Sys)
+					} else {
+						s.Class("fault_killed_in_task")
+					}
 				}
 			}
 			if cacheErr && s != nil {
